@@ -661,6 +661,22 @@ MUTANTS = [
     Mutant("C16", "uri-built-after-the-registry-store", "C16-R2", S, "Daemon.register",
            lambda f, t: (delete_stmt(f, lambda s: isinstance(s, ast.Assign) and u(s) == "uri = self.uriFor(objectId)"),
                          replace_stmt(f, lambda s: isinstance(s, ast.Return) and u(s) == "return uri", stmts("return self.uriFor(objectId)")))),
+    # ---- rules added after the eighth blind round (DESIGN 10.13)
+    Mutant("C03", "retry-budget-or-default", "C03-R6", C, "_RemoteMethod.__init__",
+           lambda f, t: replace_expr(f, lambda e: isinstance(e, ast.Name) and e.id == "max_retries" and isinstance(e.ctx, ast.Load), "max_retries or config.MAX_RETRIES")),
+    Mutant("C07", "property-getter-under-suppress-attributeerror", "C07-R6", S, "_get_exposed_property_value",
+           lambda f, t: replace_stmt(f, lambda s: isinstance(s, ast.If) and "isdatadescriptor" in u(s.test),
+                                     lambda s: [ast.With(items=[ast.withitem(context_expr=ast.parse("contextlib.suppress(AttributeError)", mode="eval").body, optional_vars=None)], body=[s])])),
+    Mutant("C10", "falsy-environment-setting-replaced-by-default", "C10-R5", "Pyro5/configure.py", "Configuration.reset",
+           lambda f, t: replace_expr(f, lambda e: isinstance(e, ast.Call) and u(e) == "setattr(self, item, envvalue)", "setattr(self, item, envvalue or value)"), also=("C03",)),
+    Mutant("C14", "safe-registration-through-dict-setdefault", "C14-R3", NSV, "NameServer.register",
+           lambda f, t: replace_stmt(f, lambda s: isinstance(s, ast.Assign) and u(s.targets[0]) == "self.storage[name]",
+                                     stmts("self.storage.setdefault(name, (uri, set(metadata) if metadata else None))"))),
+    Mutant("C16", "daemon-blanked-in-the-live-state", "C16-R7", SER, "SerializerBase.__without_daemon",
+           lambda f, t: delete_stmt(f, lambda s: isinstance(s, ast.Assign) and u(s) == "state = dict(state)")),
+    Mutant("C17", "retry-table-from-names-with-a-missing-comma", "C17-R4", SU, None,
+           lambda f, t: [setattr(st, "value", ast.parse("[getattr(errno, n) for n in ('EINTR', 'EAGAIN' 'EWOULDBLOCK', 'EINPROGRESS') if hasattr(errno, n)]", mode="eval").body)
+                         for st in t.body if isinstance(st, ast.Assign) and u(st.targets[0]) == "ERRNO_RETRIES"]),
 ]
 
 
